@@ -285,7 +285,8 @@ def dict_protocol(prog, res, rule: str, *, only_modify: bool = False) -> int:
                     state_keys |= {q for q in init.param_names()[1:] if not q.startswith("_")} - {k.value for k in d.keys}
                 elif ci.is_dataclass:
                     state_keys |= {q for q in ci.class_ann if not q.startswith("_")} - {k.value for k in d.keys}
-                probs = dictsym.consume(prog, ci, fd, param, d, dictsym.facts_of(p), f"{ci.name}.to_dict() -> from_dict", state_keys)
+                elsewhere = {k.value for _p2, d2 in arms for k in d2.keys} - {k.value for k in d.keys}
+                probs = dictsym.consume(prog, ci, fd, param, d, dictsym.facts_of(p), f"{ci.name}.to_dict() -> from_dict", state_keys, written_elsewhere=elsewhere)
                 if probs:
                     for pr in probs:
                         res.violation(rule, pr.func, pr.node, pr.message, key_extra=f"{ci.name}-roundtrip-{pr.key}")
